@@ -204,3 +204,23 @@ PROPS = {
         "assumes": ["set-up has finished before serving starts"],
     },
 }
+
+# widenings of the generated streams made while closing seeded changes of rounds 5 and 6 (DESIGN.md 11.5)
+_MORE = {
+    "C02": "The canonical text of a route is also used as a request path.",
+    "C03": "One case in six installs the middleware through Handlers() from a slice the caller overwrites afterwards; handlers may Flush (the wire is no http.Flusher).",
+    "C04": "Apply targets may sit behind one or two more pointers.",
+    "C05": "Recovery is the first middleware and every third route answers and then panics, so stacks are formatted concurrently.",
+    "C07": "Every fourth request is repeated under another spelling of the path and then without its headers; requests may have no header map at all (Header == nil, Host set).",
+    "C08": "Also: method lists through Routes() (one unknown entry refuses), raw route texts (a generated route with one character inserted, judged by the parser model), and a same-instance stream (no rebuild after a rejection; judged: a registration that failed never answers a request; single-method registrations only, because a multi-method registration is the sequence of its single ones).",
+    "C09": "Constraint names also under non-canonical spellings (x-k, X-k, USER-AGENT), two spellings of one header in one Headers() call included.",
+    "C11": "Also: Routes lists with empty or blank-separated entries (unknown method), group paths ending in a slash with relative and empty route paths inside.",
+    "C12": "Bind names with the punctuation the lexer allows (user-id, f.n, k~1); every third URL is built through the Context of a request after another build of the same route with other values.",
+    "C14": "Also shapes outside the table ((bool, string), three values), a second request on the same instance in every third case, statuses 700 and 999, error texts with %.",
+    "C15": "Handlers may Flush; the middleware may be installed through Handlers().",
+    "C16": "Every file has its own modification time and a Last-Modified that is sent must be the served file's.",
+    "C17": "Statuses also 204, 304, 299, 599, 700; charsets also UTF-8 and Shift_JIS; a declared Content-Length must be the length of what was written.",
+    "C18": "One case in five carries a malformed pair elsewhere in the query (junk=%zz, 100%, x=1;y=2, %); QueryFloat64 is judged against strconv.ParseFloat (1e309, -1e400, 1e-400, NaN, inf, 0x1p-2 among the values).",
+}
+for _k, _v in _MORE.items():
+    PROPS[_k]["rule"] = PROPS[_k]["rule"].rstrip() + " " + _v
